@@ -1,6 +1,7 @@
 package harness
 
 import (
+	"bytes"
 	"errors"
 	"sort"
 	"strings"
@@ -36,6 +37,11 @@ type SimStorage struct {
 	// storage itself always keeps private copies, so its own behaviour stays
 	// deterministic either way.
 	KeyOracle   string
+	// ValOracle, likewise, for the values handed to Set: a storage is free to keep the slice it was given
+	// (the in-tree memory storage does), so it must not be a view of a buffer that is written again
+	ValOracle   string
+	handedVals  []guardedVal
+	valFailed   bool
 	handedKeys  []guardedKey
 	keyFailed   bool
 	expiredGets []expiredGet
@@ -87,7 +93,28 @@ func (st *SimStorage) sz(n int) int {
 	return n
 }
 
+type guardedVal struct {
+	key  string
+	orig []byte
+	copy []byte
+}
+
+// CheckVals compares every value handed to Set with the copy taken at that moment.
+func (st *SimStorage) CheckVals() {
+	if st.ValOracle == "" || st.valFailed {
+		return
+	}
+	for _, v := range st.handedVals {
+		if !bytes.Equal(v.orig, v.copy) {
+			st.valFailed = true
+			st.S.Fail(st.ValOracle, "the %d bytes handed to Storage.Set for key %q no longer read the same: the slice is a view of a buffer that was written again, a storage that keeps the slice it is given now holds other content", len(v.copy), v.key)
+			return
+		}
+	}
+}
+
 func (st *SimStorage) checkKeys() {
+	st.CheckVals()
 	if st.KeyOracle == "" || st.keyFailed {
 		return
 	}
@@ -172,6 +199,9 @@ func (st *SimStorage) Set(key string, val []byte, exp time.Duration) error {
 		e.val = val
 	} else {
 		e.val = append([]byte(nil), val...)
+	}
+	if st.ValOracle != "" && len(st.handedVals) < 256 {
+		st.handedVals = append(st.handedVals, guardedVal{key: strings.Clone(key), orig: val, copy: append([]byte(nil), val...)})
 	}
 	if st.KeyOracle != "" && len(st.handedKeys) < 256 {
 		st.handedKeys = append(st.handedKeys, guardedKey{orig: key, copy: strings.Clone(key)})
